@@ -63,7 +63,7 @@ func (c *Ctx) spillName(a *ssa.Alloc) string {
 		for _, ins := range a.Parent().Blocks[0].Instrs {
 			if st, ok := ins.(*ssa.Store); ok && st.Addr == a {
 				if p, ok := st.Val.(*ssa.Parameter); ok {
-					name = p.Name()
+					name = canonName(p, p.Name())
 				}
 				break
 			}
@@ -74,6 +74,16 @@ func (c *Ctx) spillName(a *ssa.Alloc) string {
 }
 
 var theCtx *Ctx
+
+// canonName returns the reference-tree name of a parameter, free variable, allocation or φ (canon.go).
+func canonName(v ssa.Value, own string) string {
+	if theCtx != nil && theCtx.canon != nil {
+		if n, ok := theCtx.canon[v]; ok {
+			return n
+		}
+	}
+	return own
+}
 
 var descCache = map[ssa.Value]string{}
 
@@ -101,9 +111,9 @@ func describeN(v ssa.Value, depth int) string {
 	d := func(x ssa.Value) string { return describe(x) }
 	switch x := v.(type) {
 	case *ssa.Parameter:
-		return x.Name()
+		return canonName(x, x.Name())
 	case *ssa.FreeVar:
-		return x.Name()
+		return canonName(x, x.Name())
 	case *ssa.Const:
 		if x.Value == nil {
 			return "nil"
@@ -128,7 +138,7 @@ func describeN(v ssa.Value, depth int) string {
 			}
 		}
 		if x.Comment != "" {
-			return x.Comment
+			return canonName(x, x.Comment)
 		}
 		return "alloc"
 	case *ssa.FieldAddr:
@@ -157,7 +167,7 @@ func describeN(v ssa.Value, depth int) string {
 		return d(x.Tuple) + "#" + fmt.Sprint(x.Index)
 	case *ssa.Phi:
 		if x.Comment != "" {
-			return "φ" + x.Comment
+			return "φ" + canonName(x, x.Comment)
 		}
 		return "φ" + x.Name()
 	case *ssa.IndexAddr:
